@@ -2129,6 +2129,11 @@ fn check_definition<'a>(
     #[cfg(feature = "verif")]
     let variables = crate::verif_hooks::iteration_order(variables);
 
+    // Visit the variables in the order of the corresponding definitions rather than in the
+    // unspecified order of the hash set, so the errors are always reported in the same order.
+    let mut variables = variables.into_iter().collect::<Vec<_>>();
+    variables.sort_unstable_by(|variable1, variable2| variable2.cmp(variable1));
+
     // For each free variable bound by the let, check the corresponding definition.
     for variable in variables {
         if variable < definitions.len() {
